@@ -53,7 +53,6 @@ theorem unzip_eq {α β : Type} : ∀ (l l' : List (α × β)), l.map (·.1) = l
       simp at h1 h2
       obtain ⟨ha, h1⟩ := h1
       obtain ⟨hb, h2⟩ := h2
-      have : ∀ x ∈ l, True := fun _ _ => trivial
       have ih := unzip_eq l l' (by simpa using h1) (by simpa using h2)
       simp [ha, hb, ih]
   | [], _ :: _, h, _ => by simp at h
